@@ -7,13 +7,14 @@ usage: tools/clause_matrix.py [ids...]            -> notes/clause_matrix.jsonl  
 import json, os, shutil, subprocess, sys, tempfile, glob, concurrent.futures as cf
 
 VERIF = os.path.dirname(os.path.dirname(os.path.abspath(__file__)))
+SET = 'benign' if '--benign' in sys.argv else 'seeded'
 
 
 def one(sid):
     sys.path.insert(0, VERIF)
     from vf.unit import Unit
     from vf.runner import run_unit
-    meta = json.load(open(os.path.join(VERIF, 'seeded', sid, 'meta.json')))
+    meta = json.load(open(os.path.join(VERIF, SET, sid, 'meta.json')))
     out = {'id': sid, 'property': meta['property'], 'units': {}}
     for up in sorted(glob.glob(os.path.join(VERIF, 'units', '*.rs'))):
         name = os.path.basename(up)[:-3]
@@ -29,7 +30,7 @@ def one(sid):
         r = run_unit(up, keep=False)
         fs = []
         for f in r.failures:
-            fs.append({'fn': f.function, 'labels': f.labels, 'tags': sorted(f.tags), 'msg': f.message[:80], 'inserted': f.on_inserted})
+            fs.append({'fn': f.function, 'labels': f.labels, 'tags': sorted(f.tags), 'msg': f.message[:80], 'inserted': f.on_inserted, 'displaced': (getattr(r, 'displaced_items', {}) or {}).get(f.function, 0)})
         out['units'][name] = {'status': r.status, 'changed': changed, 'reason': r.reason[:300], 'isolated': getattr(r, 'isolated', []), 'failures': fs}
     print('MATRIX ' + json.dumps(out))
 
@@ -39,17 +40,17 @@ def master(ids):
         tmp = tempfile.mkdtemp(prefix='cm-')
         try:
             shutil.copytree('/repo', tmp, ignore=shutil.ignore_patterns('target', '.git'), dirs_exist_ok=True)
-            p = subprocess.run(['patch', '-p1', '-s', '-i', os.path.join(VERIF, 'seeded', sid, 'patch.diff')], cwd=tmp, capture_output=True, text=True)
+            p = subprocess.run(['patch', '-p1', '-s', '-i', os.path.join(VERIF, SET, sid, 'patch.diff')], cwd=tmp, capture_output=True, text=True)
             if p.returncode != 0:
                 return json.dumps({'id': sid, 'error': 'patch does not apply'})
-            r = subprocess.run([sys.executable, os.path.abspath(__file__), '--one', sid], cwd=VERIF, env=dict(os.environ, VERIF_REPO=tmp), capture_output=True, text=True)
+            r = subprocess.run([sys.executable, os.path.abspath(__file__), '--one', sid] + (['--benign'] if SET == 'benign' else []), cwd=VERIF, env=dict(os.environ, VERIF_REPO=tmp), capture_output=True, text=True)
             for l in r.stdout.split('\n'):
                 if l.startswith('MATRIX '):
                     return l[7:]
             return json.dumps({'id': sid, 'error': (r.stderr or r.stdout)[-400:]})
         finally:
             shutil.rmtree(tmp, ignore_errors=True)
-    with cf.ThreadPoolExecutor(max_workers=6) as ex, open(os.path.join(VERIF, 'notes', 'clause_matrix.jsonl'), 'a') as f:
+    with cf.ThreadPoolExecutor(max_workers=6) as ex, open(os.path.join(VERIF, 'notes', 'clause_matrix%s.jsonl' % ('_benign' if SET == 'benign' else '')), 'a') as f:
         for line in ex.map(run, ids):
             f.write(line + '\n')
             f.flush()
@@ -63,4 +64,4 @@ if __name__ == '__main__':
     if '--one' in sys.argv:
         one(sys.argv[sys.argv.index('--one') + 1])
     else:
-        master([a for a in sys.argv[1:] if not a.startswith('--')] or sorted(os.listdir(os.path.join(VERIF, 'seeded'))))
+        master([a for a in sys.argv[1:] if not a.startswith('--')] or sorted(os.listdir(os.path.join(VERIF, SET))))
